@@ -450,4 +450,45 @@ theorem opt_ext (a b : List (Option α)) (hl : a.length = b.length)
           simp only [List.filterMap_cons, id, List.cons.injEq] at hf
           rw [hf.1, ih ys hl' hn' hf.2]
 
+/-! ### counting listed positions in a window (for `collapse_strict_mono`) -/
+
+
+theorem asc_count_window (l : List Nat) (hasc : Asc l) (a b : Nat) :
+    (l.filter (fun x => decide (a ≤ x) && decide (x < b))).length ≤ b - a := by
+  induction l generalizing a with
+  | nil => simp
+  | cons x xs ih =>
+    have hx : ∀ y ∈ xs, x < y := (List.pairwise_cons.mp hasc).1
+    have hasc' : Asc xs := (List.pairwise_cons.mp hasc).2
+    rw [List.filter_cons]
+    split
+    · rename_i h
+      simp only [Bool.and_eq_true, decide_eq_true_eq] at h
+      have hc : xs.filter (fun y => decide (a ≤ y) && decide (y < b)) = xs.filter (fun y => decide (x + 1 ≤ y) && decide (y < b)) := by
+        apply List.filter_congr
+        intro y hy
+        have := hx y hy
+        have h1 : decide (a ≤ y) = true := by simp; omega
+        have h2 : decide (x + 1 ≤ y) = true := by simp; omega
+        rw [h1, h2]
+      rw [List.length_cons, hc]
+      have := ih hasc' (x + 1)
+      omega
+    · exact ih hasc' a
+
+theorem count_split (l : List Nat) (i j : Nat) (hij : i ≤ j) :
+    (l.filter (· < j)).length = (l.filter (· < i)).length + (l.filter (fun x => decide (i ≤ x) && decide (x < j))).length := by
+  induction l with
+  | nil => simp
+  | cons x xs ih =>
+    simp only [List.filter_cons]
+    by_cases h1 : x < i
+    · have h2 : x < j := by omega
+      have h3 : ¬ (i ≤ x) := by omega
+      simp [h1, h2, h3, ih]; omega
+    · by_cases h2 : x < j
+      · have h3 : i ≤ x := by omega
+        simp [h1, h2, h3, ih]; omega
+      · simp [h1, h2, ih]
+
 end Nifly.Util
